@@ -5,14 +5,15 @@ use noodles_bgzf as bgzf;
 use noodles_cram as cram;
 use noodles_sam as sam;
 
+use super::builder::Source;
 use crate::alignment::Record;
 
 pub(super) enum Inner<R> {
-    Sam(sam::io::Reader<BufReader<R>>),
-    SamGz(sam::io::Reader<bgzf::io::Reader<BufReader<R>>>),
-    Bam(bam::io::Reader<bgzf::io::Reader<BufReader<R>>>),
-    BamRaw(bam::io::Reader<BufReader<R>>),
-    Cram(cram::io::BufReader<BufReader<R>>),
+    Sam(sam::io::Reader<BufReader<Source<R>>>),
+    SamGz(sam::io::Reader<bgzf::io::Reader<BufReader<Source<R>>>>),
+    Bam(bam::io::Reader<bgzf::io::Reader<BufReader<Source<R>>>>),
+    BamRaw(bam::io::Reader<BufReader<Source<R>>>),
+    Cram(cram::io::BufReader<BufReader<Source<R>>>),
 }
 
 impl<R> Inner<R>
